@@ -61,6 +61,9 @@ type TraditionalDnsConn struct {
 	// It can identify c is dead or buggy in some circumstances. e.g. Network is dropped
 	// and the sockets were still open because no fin or rst was received.
 	waitingResp atomic.Bool
+	// deadlineMu makes "check waitingResp, then set the read deadline" atomic, so that
+	// readLoop cannot replace the waiting-reply deadline with the (longer) idle one.
+	deadlineMu sync.Mutex
 }
 
 type TraditionalDnsConnOpts struct {
@@ -120,9 +123,11 @@ func (dc *TraditionalDnsConn) exchange(ctx context.Context, q []byte) (*[]byte, 
 	// The Read deadline will be refreshed in DnsConn.readLoop() after every successful read.
 	// Note: There has a race condition in this SetReadDeadline() call and the one in
 	// readLoop(). It's not a big problem.
+	dc.deadlineMu.Lock()
 	if dc.waitingResp.CompareAndSwap(false, true) {
 		dc.c.SetReadDeadline(time.Now().Add(waitingReplyTimeout))
 	}
+	dc.deadlineMu.Unlock()
 
 	var resend <-chan time.Time
 	if !dc.isTcp {
@@ -188,7 +193,11 @@ func (dc *TraditionalDnsConn) readResp() (payload *[]byte, err error) {
 func (dc *TraditionalDnsConn) readLoop() {
 
 	for {
-		dc.c.SetReadDeadline(time.Now().Add(dc.idleTimeout))
+		dc.deadlineMu.Lock()
+		if !dc.waitingResp.Load() { // keep the waiting-reply deadline armed by exchange()
+			dc.c.SetReadDeadline(time.Now().Add(dc.idleTimeout))
+		}
+		dc.deadlineMu.Unlock()
 		r, err := dc.readResp()
 		if err != nil {
 			dc.CloseWithErr(fmt.Errorf("read err, %w", err)) // abort this connection.
